@@ -152,7 +152,7 @@ def run(run: Run, pkg: Package) -> None:
             run.ob("R-DISPATCH", fq, key, None if sel else False, f"ModelName.{m} selects exactly one return",
                    f"{len(sel)} candidate returns", witness=f"model_name = ModelName.{m}" if not sel else None, loc=it.fi.loc(), sound=True)   # every return is refuted for this member
             continue
-        val = sel[0].data["value"]
+        val = resolve_phi(sel[0].data["value"], leaf)
         want = pkg.cls(CLS).methods[m].qual
         ok = val[0] == "call" and val[1] == want
         others = {pkg.cls(CLS).methods[m2].qual for m2 in POTENTIALS if m2 != m}
